@@ -232,9 +232,9 @@ theorem roundtrip (dos : Bool) (text : Str) :
     nothing else; `moto_bas2lst name.bas,a [--dos]` on that file then writes `name.lst` — the listing's non-blank lines, in order,
     each followed by the selected line ending.  Extension and option in either letter case; `stem` is any path prefix, dots and
     directories included. -/
-theorem cli_roundtrip (w : Str → Option Str) (stem lst optA bas optB text : Str) (dos : Bool)
+theorem cli_roundtrip (w : Str → Option Conv.Listing) (stem lst optA bas optB text : Str) (dos : Bool)
     (hlst : upper lst = Conv.str "LST") (hA : upper optA = Conv.str ",A") (hbas : upper bas = Conv.str "BAS") (hB : upper optB = Conv.str ",A")
-    (hw : w (stem ++ 46 :: lst) = some text) :
+    (hw : w (stem ++ 46 :: lst) = some (.text text)) :
     Conv.lst2basOne w (stem ++ 46 :: (lst ++ optA)) = { writes := [(stem ++ 46 :: Conv.str "bas", toAsciiBasic text)] }
     ∧ ∀ wb : Str → Option Bytes, wb (stem ++ [46] ++ bas) = some (toAsciiBasic text) →
         Conv.bas2lstOne wb dos (stem ++ [46] ++ (bas ++ optB))
@@ -244,15 +244,19 @@ theorem cli_roundtrip (w : Str → Option Str) (stem lst optA bas optB text : St
   intro wb hwb
   rw [Conv.bas2lst_ascii wb dos (stem ++ [46]) bas optB (toAsciiBasic text) hbas hB hwb, roundtrip]
 
-/-- several sources: converted in order; a failing one ends the run, the earlier results stay -/
-theorem cli_sources_in_order (one : Str → Conv.Out) (s : Str) (rest : List Str) :
-    ((one s).err = none → Conv.runSeq one (s :: rest)
-        = { writes := (one s).writes ++ (Conv.runSeq one rest).writes, err := (Conv.runSeq one rest).err })
-    ∧ (∀ e, (one s).err = some e → Conv.runSeq one (s :: rest) = one s) :=
-  ⟨Conv.runSeq_ok one s rest, fun e => Conv.runSeq_fail one s rest e⟩
+/-- **several sources** (the loop of either converter): when every source converts, the run writes the results of all of them in the
+    order given and returns 0; otherwise the first source that fails ends the run — the results of the sources before it stay, what
+    the failing one left (an empty target when the listing could not be read or numbered) stays, the sources after it are not
+    touched -/
+theorem cli_sources_in_order (one : Str → Conv.Out) :
+    (∀ srcs : List Str, (∀ s ∈ srcs, (one s).err = none) →
+        Conv.runSeq one srcs = { writes := srcs.flatMap (fun s => (one s).writes), err := none })
+    ∧ (∀ (pre post : List Str) (s : Str) (e : PyErr), (∀ x ∈ pre, (one x).err = none) → (one s).err = some e →
+        Conv.runSeq one (pre ++ s :: post) = { writes := pre.flatMap (fun x => (one x).writes) ++ (one s).writes, err := some e }) :=
+  ⟨Conv.runSeq_all_ok one, fun pre post s e hpre hs => Conv.runSeq_first_failure one s e post hs pre hpre⟩
 
 /-- the hypotheses are met -/
-example : Conv.lst2basRun (fun p => if p = Conv.str "d.x/p.Lst" then some (Conv.str "10 a  \n\n20 b\n") else none) [Conv.str "d.x/p.Lst,A"]
+example : Conv.lst2basRun (fun p => if p = Conv.str "d.x/p.Lst" then some (.text (Conv.str "10 a  \n\n20 b\n")) else none) [Conv.str "d.x/p.Lst,A"]
     = { writes := [(Conv.str "d.x/p.bas", [13, 49, 48, 32, 97, 13, 13, 50, 48, 32, 98, 13])] } := by decide +kernel
 
 end Moto.C15
